@@ -6,7 +6,10 @@ a throw-away package; every regular file has a unique body).
 
 Enumerated: every template name that is a "/"-join of <= 4 (quick: <= 3, plus length 4
 over the eight path-significant components) components of the alphabet
-``c22_sandbox.ALPHABET``  x  every loader configuration
+``c22_sandbox.ALPHABET``, plus the SEPARATOR LAYER: every join of <= 3 (thorough: <= 4) of the
+path-significant components (and the absolute prefix spelled with backslashes) where each
+separator is "/" or "\\" and at least one is "\\" (Windows spelling: `..\\secret`, `sub\\..\\..\\x`,
+`\\abs\\path`), x  every loader configuration
 
   fs   FileSystemLoader         reject_symlinks {off,on} x search path {root | root,root2 | symlink->root} x ext {None,".liquid"}
   cfs  CachingFileSystemLoader  reject_symlinks {off,on} x search path {root | root,root2}                 x ext {None,".liquid"}
@@ -22,7 +25,8 @@ Oracle (one verdict per call):
   * a template / source whose text is the body of real file F:
       F really inside a search directory         -> allowed   (statement)
       reject_symlinks off (or PackageLoader, which has no such option), the requested name is
-      textually relative and below the search directory, and F is what some path below the
+      textually relative and below the search directory (reading a backslash both as a character
+      and as a separator), and F is what some path below the
       search directory points to               -> allowed   (statement: links may be followed
                                                     unless rejection is enabled; loader docstring)
       otherwise                                  -> violation "read-outside"
@@ -75,29 +79,41 @@ CONFIGS = configs()
 # ---------------------------------------------------------------------------------------
 # names
 # ---------------------------------------------------------------------------------------
-def token_tuples(tier: str) -> Iterator[tuple[str, ...]]:
+Name = tuple[tuple[str, ...], Optional[str]]  # (tokens, separators or None = all "/")
+
+
+def token_tuples(tier: str) -> Iterator[Name]:
     full = 3 if tier == "quick" else 4
     for n in range(full + 1):
-        yield from itertools.product(S.ALPHABET, repeat=n)
+        for toks in itertools.product(S.ALPHABET, repeat=n):
+            yield toks, None
     if tier == "quick":
-        yield from itertools.product(S.SIGNIFICANT, repeat=4)
+        for toks in itertools.product(S.SIGNIFICANT, repeat=4):
+            yield toks, None
+    # separator layer: "\\" as THE separator, and every mix of "/" and "\\"
+    for n in range(1, full + 1):
+        for toks in itertools.product(S.SEP_COMPONENTS, repeat=n):
+            for seps in itertools.product(S.SEPARATORS, repeat=n - 1):
+                yield toks, "".join(seps)
 
 
-_NAMES: dict[str, list[tuple[str, ...]]] = {}
+_NAMES: dict[str, list[Name]] = {}
 
 
-def all_names(tier: str) -> list[tuple[str, ...]]:
-    """Distinct symbolic names (token tuples with distinct "/"-joins), simplest first."""
+def all_names(tier: str) -> list[Name]:
+    """Distinct symbolic names (distinct joins), simplest first."""
     got = _NAMES.get(tier)
     if got is None:
         seen: set[str] = set()
         got = []
-        for toks in token_tuples(tier):
-            sym = "/".join(toks)
+        for toks, seps in token_tuples(tier):
+            if seps is not None and "\\" not in seps:
+                seps = None
+            sym = S.join_sym(toks, seps)
             if sym in seen:
                 continue
             seen.add(sym)
-            got.append(toks)
+            got.append((toks, seps))
         _NAMES[tier] = got
     return got
 
@@ -177,14 +193,15 @@ LONG_ = S.LONG
 
 
 def judge(world: World, cfg: dict[str, Any], toks: list[str], api: str, phase: str,
-          got: tuple[Any, ...], expected: Optional[str]) -> tuple[str, Optional[dict[str, Any]]]:
+          got: tuple[Any, ...], expected: Optional[str], seps: Optional[str] = None,
+          ) -> tuple[str, Optional[dict[str, Any]]]:
     """(outcome label, violation or None)."""
     fam = cfg["family"]
-    feature = S.name_feature(toks)
-    sym = "/".join(toks)
+    feature = S.name_feature(toks, seps)
+    sym = S.join_sym(toks, seps)
     desc = (f"{fam} loader reject_symlinks={cfg['reject']} search_path={cfg['paths']} ext={cfg['ext']!r} "
             f"{api}({sym!r}) [{phase}]")
-    case = {"toks": list(toks), "cfg": cfg, "api": api, "phase": phase}
+    case = {"toks": list(toks), "seps": seps, "cfg": cfg, "api": api, "phase": phase}
 
     def viol(sig: dict[str, Any], what: str) -> dict[str, Any]:
         sig = {"family": fam, "feature": feature, **sig}
@@ -203,7 +220,7 @@ def judge(world: World, cfg: dict[str, Any], toks: list[str], api: str, phase: s
     text = got[1]
     bases = world.bases(cfg)
     follow_ok = fam == "pkg" or not cfg["reject"]
-    name = world.sb.name(toks)
+    name = world.sb.name(toks, seps)
     ok, label, real = world.sb.judge_source(text, name, bases, follow_links_ok=follow_ok, exts=(None, cfg["ext"]))
     if not ok:
         rel = os.path.relpath(real, world.sb.sb) if real else None
@@ -221,22 +238,20 @@ def probe_nontrivial(world: World, cfg: dict[str, Any], name: str) -> Optional[s
     """Does the name reach anything?  (OS view, independent of the library.)
 
     Non-trivial iff the name (with or without the default extension), joined to a search
-    directory by the OS rules, denotes an existing file-system entry -- inside or outside --
+    directory by the OS rules (a backslash read as a character or as a separator), denotes an existing file-system entry -- inside or outside --
     or probing it makes the OS fail (NUL byte, component longer than NAME_MAX).
     """
-    for b in world.bases(cfg):
-        for e in ("", cfg["ext"] or ""):
-            try:
-                os.lstat(os.path.join(b, name + e))
-                return "exists"
-            except ValueError:
-                return "os-valueerror"
-            except FileNotFoundError:
-                continue
-            except NotADirectoryError:
-                continue
-            except OSError:
-                return "os-error"
+    readings = [name] if "\\" not in name else [name, name.replace("\\", "/")]
+    for b, e, rd in itertools.product(world.bases(cfg), ("", cfg["ext"] or ""), readings):
+        try:
+            os.lstat(os.path.join(b, rd + e))
+            return "exists"
+        except ValueError:
+            return "os-valueerror"
+        except (FileNotFoundError, NotADirectoryError):
+            continue
+        except OSError:
+            return "os-error"
     return None
 
 
@@ -268,7 +283,7 @@ async def acall(env: Any, api: str, name: str) -> tuple[Any, ...]:
     return ("source", text)
 
 
-def run_name(world: World, toks: tuple[str, ...], res: Optional[Result]) -> list[dict[str, Any]]:
+def run_name(world: World, toks: tuple[str, ...], res: Optional[Result], seps: Optional[str] = None) -> list[dict[str, Any]]:
     """Every configuration x API x phase for one name.
 
     Synchronous calls run one by one.  The asynchronous calls of all configurations are
@@ -278,8 +293,9 @@ def run_name(world: World, toks: tuple[str, ...], res: Optional[Result]) -> list
     inside its own coroutine.
     """
     viols: list[dict[str, Any]] = []
-    name = world.sb.name(toks)
+    name = world.sb.name(toks, seps)
     tl = list(toks)
+    feature = S.name_feature(tl, seps)
     done: list[tuple[dict[str, Any], str, str, tuple[Any, ...]]] = []
     pending: list[Any] = []
 
@@ -309,21 +325,21 @@ def run_name(world: World, toks: tuple[str, ...], res: Optional[Result]) -> list
     for cfg, api, phase, got in done:
         k = id(cfg)
         if k not in memo:
-            memo[k] = (probe_nontrivial(world, cfg, name), world.sb.expected_plain(tl, world.bases(cfg), cfg["ext"]))
+            memo[k] = (probe_nontrivial(world, cfg, name), world.sb.expected_plain(tl, world.bases(cfg), cfg["ext"]) if seps is None else None)
         nt, expected = memo[k]
-        label, v = judge(world, cfg, tl, api, phase, got, expected)
+        label, v = judge(world, cfg, tl, api, phase, got, expected, seps)
         if v is not None:
             viols.append(v)
         if res is not None:
             ident = None
             if nt is not None or got[0] != "notfound":
-                ident = [tl, cfg["family"], cfg["reject"], cfg["paths"], cfg["ext"], api, phase]
+                ident = [tl, seps, cfg["family"], cfg["reject"], cfg["paths"], cfg["ext"], api, phase]
             res.case(nontrivial=ident, outcome=label,
-                     sample={"name_tokens": tl, "cfg": cfg, "api": api, "phase": phase,
+                     sample={"name_tokens": tl, "separators": seps or "/", "cfg": cfg, "api": api, "phase": phase,
                              "result": got[0] if got[0] != "source" else got[1][:50]}
                      if (ident is not None and got[0] == "source") else None)
             if got[0] == "notfound":
-                res.count(f"notfound[{S.name_feature(tl)}]")
+                res.count(f"notfound[{feature}]")
             if v is not None:
                 res.violation(v["signature"], v["what"], v["case"])
     return viols
@@ -334,7 +350,7 @@ class C22(Check):
     id = "C22"
     level = "exploration"
     title = "Template loaders never read outside their search paths"
-    rule = ("every '/'-join of <= k components of a 21-symbol alphabet (path separators, '.', '..', absolute "
+    rule = ("every '/'-join (and, for the path-significant components, every '\\\\'- and mixed-separator join) of <= k components of a 21-symbol alphabet (path separators, '.', '..', absolute "
             "prefix of a decoy directory, NUL, newline, unicode, percent-encoding, drive prefix, 300-char "
             "component, file / directory / symlink names of the sandbox) x every loader configuration "
             "(FileSystemLoader / CachingFileSystemLoader cold+warm / PackageLoader; reject_symlinks; 1 or 2 "
@@ -359,6 +375,8 @@ class C22(Check):
             "alphabet": [t if t.isprintable() else repr(t) for t in S.ALPHABET],
             "components": "<= 3 over the full alphabet + exactly 4 over " + repr(S.SIGNIFICANT)
             if tier == "quick" else "<= 4 over the full alphabet",
+            "separator_layer": f"<= {3 if tier == 'quick' else 4} components of {S.SEP_COMPONENTS!r}, each separator "
+                               "'/' or '\\\\', at least one '\\\\'",
             "distinct_names": len(all_names(tier)),
             "loader_configs": len(CONFIGS),
             "calls_per_name": sum(len(ph) for cfg in CONFIGS for _a, ph in ops(cfg)),
@@ -375,8 +393,8 @@ class C22(Check):
         names = all_names(tier)
         world = World()
         try:
-            for toks in names[i::n]:  # strided: neighbouring names have similar cost
-                run_name(world, toks, res)
+            for toks, seps in names[i::n]:  # strided: neighbouring names have similar cost
+                run_name(world, toks, res, seps)
         finally:
             world.close()
         return res
@@ -386,15 +404,16 @@ class C22(Check):
         try:
             cfg = case["cfg"]
             toks = list(case["toks"])
-            name = world.sb.name(toks)
-            expected = world.sb.expected_plain(toks, world.bases(cfg), cfg["ext"])
+            seps = case.get("seps")
+            name = world.sb.name(toks, seps)
+            expected = world.sb.expected_plain(toks, world.bases(cfg), cfg["ext"]) if seps is None else None
             env = world.env(cfg, fresh_loader=False)
             out: list[dict[str, Any]] = []
             phases = ("cold", "warm") if case.get("phase") == "warm" else ("cold",)
             for phase in phases:
                 got = call(env, case["api"], name)
                 print(f"  {cfg['family']} {case['api']}({name!r}) [{phase}] -> {got!r}".replace(LONG_, "<LONG300>")[:400])
-                _label, v = judge(world, cfg, toks, case["api"], phase, got, expected)
+                _label, v = judge(world, cfg, toks, case["api"], phase, got, expected, seps)
                 if v is not None and phase == case.get("phase", "cold"):
                     out.append(v)
             return out
